@@ -341,6 +341,16 @@ theorem logline_roundtrip (s y x : List Char) (hs : tokOK s = true) (hy : tokOK 
     simp only [splitGo, r1, r2, r3]
   exact ⟨main, by simp [parseLine, main]⟩
 
+/-- **`split3` is a split on `"   "`**: joining the pieces with three blanks gives back the string, and no
+piece contains three consecutive blanks (this is what ties the model's scanner to the meaning of
+`str.split("   ")`; agreement with CPython on concrete strings is checked by the correspondence). -/
+theorem split3_spec (s : List Char) :
+    List.intercalate [sp, sp, sp] (split3 s) = s ∧ ∀ p ∈ split3 s, tailOK p = true := by
+  constructor
+  · have := splitGo_join s 0 [] (by omega)
+    simpa [split3, cur] using this
+  · exact splitGo_pieces s 0 [] (by simp [cur, scan])
+
 /-! ## parameter files -/
 
 /-- **support format round trip.** For a rectangular, non-empty trajectory (`r > 0` iterations of `c > 0`
